@@ -623,6 +623,29 @@ example : chunksArrayPy .little .bang .h 2 (.int 0) [.int (-32768), .int 32767, 
 example : chunksStructPy .little .bang .h 2 (.int 0) [.int (-32768), .int 32767, .int 32768, .int 5]
     = ⟨[[0x80, 0, 0x7F, 0xFF]], some .range⟩ := by rfl
 
+/-- **C18.32b** the StrategyDict entry `chunks(...)`: whichever strategy `chunks.default` names (the
+docstring suggests `chunks.default = chunks.array`), the call yields the same chunks and stops at the
+same item; only the CLASS of the exception follows the strategy (`structExc` / `arrayExc`). -/
+theorem chunks_entry_any_default (native : Order) (a : OrderArg) (fmt : Fmt) (size : Nat) (hs : 0 < size)
+    (pad : PVal) (xs : List PVal)
+    (hf : fmt = .f → ∀ x ∈ pad :: xs, leElem true .f x = leElem false .f x) :
+    (chunksEntry .array native a fmt fmt size pad xs).out = (chunksEntry .struct native a fmt fmt size pad xs).out
+      ∧ ((chunksEntry .array native a fmt fmt size pad xs).err.isSome
+          = (chunksEntry .struct native a fmt fmt size pad xs).err.isSome)
+      ∧ (chunksEntry .struct native a fmt fmt size pad xs).err
+          = (chunksStructPy native a fmt size pad xs).err.map structExc
+      ∧ (chunksEntry .array native a fmt fmt size pad xs).err
+          = (chunksStructPy native a fmt size pad xs).err.map arrayExc := by
+  have h := chunks_table_struct_eq_array native a fmt size hs pad xs hf
+  simp only [chunksEntry, h]
+  refine ⟨trivial, ?_, trivial, trivial⟩
+  cases (chunksStructPy native a fmt size pad xs).err <;> rfl
+
+example : chunksEntry .array .little .gt .h .h 2 (.int 0) [.int 1, .int 2, .int 40000]
+    = ⟨[[0, 1, 0, 2]], some .overflowError⟩ := by rfl
+example : chunksEntry .struct .little .gt .h .h 2 (.int 0) [.int 1, .int 2, .int 40000]
+    = ⟨[[0, 1, 0, 2]], some .structError⟩ := by rfl
+
 /-- **C18.33** the extreme values of every integer width are inside the format and their neighbours are
 outside: −2^(8w−1) and 2^(8w−1)−1 signed (−128, 127, −32768, 32767, −2³¹, 2³¹−1, …), 0 and 2^(8w)−1
 unsigned; so C18.14 / C18.24 / C18.32 speak about them, in every position. -/
